@@ -352,12 +352,33 @@ func phHashes(phs []tmconsensus.ProposedHeader) string {
 	return TL(xs)
 }
 
+func (w *world) trKeys(vs tmconsensus.ValidatorSet) string {
+	xs := make([]string, len(vs.Validators))
+	for i, v := range vs.Validators {
+		k := w.keyID(v.PubKey)
+		if k < 0 {
+			k = 999
+		}
+		xs[i] = TN(uint64(k))
+	}
+	return TL(xs)
+}
+
+func trVPows(vs tmconsensus.ValidatorSet) string {
+	xs := make([]string, len(vs.Validators))
+	for i, v := range vs.Validators {
+		xs[i] = TN(v.Power)
+	}
+	return TL(xs)
+}
+
 func (w *world) trView(v *tmconsensus.VersionedRoundView) string {
 	s := v.VoteSummary
 	sum := TL([]string{TN(s.AvailablePower), TN(s.TotalPrevotePower), TN(s.TotalPrecommitPower),
 		trPows(s.PrevoteBlockPower), trPows(s.PrecommitBlockPower),
 		TB([]byte(s.MostVotedPrevoteHash)), TB([]byte(s.MostVotedPrecommitHash))})
 	return TL([]string{TN(v.Height), TN(uint64(v.Round)), TB(v.ValidatorSet.PubKeyHash), TB(v.ValidatorSet.VotePowerHash),
+		w.trKeys(v.ValidatorSet), trVPows(v.ValidatorSet),
 		phHashes(v.ProposedHeaders), w.trPmap(v.PrevoteProofs), w.trPmap(v.PrecommitProofs), sum, w.trCProof(v.PrevCommitProof)})
 }
 
@@ -408,8 +429,9 @@ func (rn *runner) observe() string {
 		if err != nil {
 			continue
 		}
+		nv := chd.Header.NextValidatorSet
 		hdrs = append(hdrs, TL([]string{TN(h), TB(chd.Header.Hash), TB(chd.Header.PrevBlockHash),
-			TB(chd.Header.NextValidatorSet.PubKeyHash), rn.w.trCProof(chd.Proof)}))
+			TB(nv.PubKeyHash), TB(nv.VotePowerHash), rn.w.trKeys(nv), trVPows(nv), rn.w.trCProof(chd.Proof)}))
 	}
 	keys := make([]hr, 0, len(rn.touched))
 	for k := range rn.touched {
